@@ -749,6 +749,115 @@ Definition rows_of_result (l : list json) : list (json * json) := flat_map rows_
 Definition row_doc (vd : entry -> json) (e : entry) : json * json := (labels_doc (e_lbls e), vd e).
 
 (* ------------------------------------------------------------------------------------------ *)
+(* encoding/json.Marshal of the response structs of the tempo endpoints, as a field walk.
+   A Go value is written as a [json] tree whose strings are the Go strings (any bytes) and whose numbers are the
+   texts the encoder prints: [tokensJ_of] is what json.Marshal emits for it (names and strings through appendString
+   with HTML escaping: TStrJ), [sanitize_doc] what a reader decodes (invalid UTF-8 replaced by U+FFFD).
+   The walks [*_val] transcribe the struct declarations of reader/model (field order, json names, omitempty,
+   nil slice = null, nil pointer with omitempty = absent). *)
+Fixpoint tokensJ_of (d : json) : list token :=
+  match d with
+  | JNull => [TNull]
+  | JBool true => [TTrue]
+  | JBool false => [TFalse]
+  | JNum s => [TRaw s]
+  | JStr s => [TStrJ s]
+  | JArr l => TArrS :: join (map tokensJ_of l) ++ [TArrE]
+  | JObj l => TObjS :: join (map (fun kv => TStrJ (fst kv) :: TColon :: tokensJ_of (snd kv)) l) ++ [TObjE]
+  end.
+Fixpoint sanitize_doc (d : json) : json :=
+  match d with
+  | JStr s => JStr (sanitize s)
+  | JArr l => JArr (map sanitize_doc l)
+  | JObj l => JObj (map (fun kv => (sanitize (fst kv), sanitize_doc (snd kv))) l)
+  | _ => d
+  end.
+
+(* encoding/json floatEncoder (bits 64): 'f' layout, 'e' below 1e-6 and from 1e21 with the exponent e-09 cleaned
+   up to e-9; json.Marshal fails on NaN and infinities (UnsupportedValueError): no text *)
+Definition gojson_exp_digits (x : Z) : string :=
+  if ((x <? 0) && (Z.abs x <? 10))%Z then digits (Z.abs x) else exp_digits x.
+Definition gojson_exp_text (neg : bool) (D P : Z) : string :=
+  let ds := digits D in
+  let x := (P + Z.of_nat (String.length ds) - 1)%Z in
+  let esign := ascii_of_N (if (x <? 0)%Z then 45%N else 43%N) in
+  (sign_text neg ++ mant_text ds ++ String (ascii_of_N 101) (String esign (gojson_exp_digits x)))%string.
+Definition gojson_float_text (x : fl) : string :=
+  match x with
+  | FZero neg => fixed_text neg 0 0
+  | FFin neg m e =>
+    let (D, P) := shortest m e in
+    if lt_1e_6 m e || ge_1e21 m e then gojson_exp_text neg D P else fixed_of_dec neg D P
+  | _ => EmptyString
+  end.
+
+Definition jint (z : Z) : json := JNum (int_text z).
+Definition jfloat (bits : N) : json := JNum (gojson_float_text (fl_of_bits bits)).
+(* a slice: nil is null *)
+Definition jslice {A : Type} (f : A -> json) (l : option (list A)) : json :=
+  match l with Some xs => JArr (map f xs) | None => JNull end.
+(* drop the members omitempty removes *)
+Definition omit (l : list (string * option json)) : list (string * json) :=
+  flat_map (fun kv => match snd kv with Some v => [(fst kv, v)] | None => [] end) l.
+Definition keep (v : json) : option json := Some v.
+Definition nonempty_str (s : string) : option json := match s with EmptyString => None | _ => Some (JStr s) end.
+Definition nonzero_int (z : Z) : option json := if (z =? 0)%Z then None else Some (jint z).
+
+(* model.TraceResponse (Search with tags) *)
+Record trace_response := { tr_id : string; tr_svc : string; tr_name : string; tr_start : Z; tr_dur : Z }.
+Definition trace_response_val (t : trace_response) : json :=
+  JObj [("traceID", JStr (tr_id t)); ("rootServiceName", JStr (tr_svc t)); ("rootTraceName", JStr (tr_name t));
+        ("startTimeUnixNano", jint (tr_start t)); ("durationMs", jint (tr_dur t))].
+
+(* model.TraceInfo / SpanSet / SpanInfo / SpanAttr (Search with a TraceQL query) *)
+Record span_attr := { sa_key : string; sa_val : string }.
+Record span_info := { si_id : string; si_start : string; si_dur : string; si_attrs : option (list span_attr) }.
+Record span_set := { ss_spans : option (list span_info); ss_matched : Z }.
+Record trace_info := { ti_id : string; ti_svc : string; ti_name : string; ti_start : string; ti_dur : N;
+                       ti_set : span_set; ti_sets : option (list span_set) }.
+Definition span_attr_val (a : span_attr) : json :=
+  JObj [("key", JStr (sa_key a)); ("value", JObj [("stringValue", JStr (sa_val a))])].
+Definition span_info_val (s : span_info) : json :=
+  JObj [("spanID", JStr (si_id s)); ("startTimeUnixNano", JStr (si_start s)); ("durationNanos", JStr (si_dur s));
+        ("attributes", jslice span_attr_val (si_attrs s))].
+Definition span_set_val (s : span_set) : json :=
+  JObj [("spans", jslice span_info_val (ss_spans s)); ("matched", jint (ss_matched s))].
+Definition trace_info_val (t : trace_info) : json :=
+  JObj [("traceID", JStr (ti_id t)); ("rootServiceName", JStr (ti_svc t)); ("rootTraceName", JStr (ti_name t));
+        ("startTimeUnixNano", JStr (ti_start t)); ("durationMs", jfloat (ti_dur t));
+        ("spanSet", span_set_val (ti_set t)); ("spanSets", jslice span_set_val (ti_sets t))].
+
+(* model.JSONSpan (Trace, JSON branch), as unmarshal.SpanToJSONSpan fills it: attributes and events are made
+   slices (never nil), parentSpanId has omitempty, status is an omitempty pointer to the OTLP Status whose message and
+   code (an int32 enum) both have omitempty *)
+Record jstatus := { st_msg : string; st_code : Z }.
+Record jspan := { js_traceID : string; js_traceId : string; js_spanID : string; js_spanId : string; js_name : string;
+                  js_start : Z; js_end : Z; js_parent : string; js_svc : string;
+                  js_attrs : list span_attr; js_events : list (Z * string); js_status : option jstatus }.
+Definition jstatus_val (s : jstatus) : json :=
+  JObj (omit [("message", nonempty_str (st_msg s)); ("code", nonzero_int (st_code s))]).
+Definition jevent_val (e : Z * string) : json := JObj [("timeUnixNano", jint (fst e)); ("name", JStr (snd e))].
+Definition jspan_val (s : jspan) : json :=
+  JObj (omit [("traceID", keep (JStr (js_traceID s))); ("traceId", keep (JStr (js_traceId s)));
+              ("spanID", keep (JStr (js_spanID s))); ("spanId", keep (JStr (js_spanId s))); ("name", keep (JStr (js_name s)));
+              ("startTimeUnixNano", keep (jint (js_start s))); ("endTimeUnixNano", keep (jint (js_end s)));
+              ("parentSpanId", nonempty_str (js_parent s)); ("serviceName", keep (JStr (js_svc s)));
+              ("attributes", keep (JArr (map span_attr_val (js_attrs s))));
+              ("events", keep (JArr (map jevent_val (js_events s))));
+              ("status", option_map jstatus_val (js_status s))]).
+
+(* the handlers: marshalled values between the hand-written chunks and commas *)
+Definition enc_search (vs : list json) : list token :=
+  [TObjS; TStr "traces"; TColon; sp; TArrS] ++ sep_loop' tokensJ_of vs false ++ [TArrE; TObjE].
+Definition nl3t : token := TWs nl3.
+Definition enc_trace (vs : list json) : list token :=
+  [TObjS; TStr "resourceSpans"; TColon; sp; TArrS; TObjS; sp; nl3t;
+   TStr "resource"; TColon; TObjS; TStr "attributes"; TColon; TArrS; TObjS; TStr "key"; TColon; TStr "collector"; TComma;
+   TStr "value"; TColon; TObjS; TStr "stringValue"; TColon; TStr "qryn"; TObjE; TObjE; TArrE; TObjE; TComma; sp; nl3t;
+   TStr "instrumentationLibrarySpans"; TColon; sp; TArrS; TObjS; sp; TStr "spans"; TColon; sp; TArrS] ++
+  sep_loop' tokensJ_of vs false ++ [TArrE; TObjE; TArrE; TObjE; TArrE; TObjE].
+
+(* ------------------------------------------------------------------------------------------ *)
 (* rows as the encoders receive them (shared.LogEntry / promql.Point): the number texts are no
    longer inputs, they are computed by the printers of model/GoFloat.v from TimestampNS and the
    bits of the float64 Value *)
@@ -870,7 +979,7 @@ Definition dec_Z (s : string) : Z :=
 Definition dec_nat (s : string) : nat := N.to_nat (dec_N s 0).
 
 Inductive enc_kind := KStreams | KMatrix | KTail | KVector | KTags | KTagValues | KLabels | KSeries
-                  | KPromMatrix | KPromVector | KPromScalar | KPromError | KTrace | KSearch | KNumFmt.
+                  | KPromMatrix | KPromVector | KPromScalar | KPromError | KTrace | KSearch | KSearchQL | KNumFmt.
 Record case := {
   c_id : Z;
   c_kind : enc_kind;
@@ -881,6 +990,7 @@ Record case := {
   c_blbls : list (list (string * string));  (* Prometheus kinds: one label set per batch (= series) *)
   c_items : list string;           (* list endpoints: tag names, label values, stored label documents *)
   c_order : list N;                (* vector: fingerprints in the order of the result array *)
+  c_vals : list json;              (* tempo kinds: the struct values handed to json.Marshal (field walks of the decoded items) *)
   c_out : string                   (* concatenated chunks the implementation sent *)
 }.
 
@@ -918,8 +1028,8 @@ Definition model_bytes (c : case) : string :=
   | KPromVector => render (enc_prom_vector (case_series c))
   | KPromScalar => render (enc_prom_scalar (case_scalar c))
   | KPromError => render (enc_prom_error (case_msg c))
-  | KTrace => enc_trace_bytes (c_items c)
-  | KSearch => enc_search_bytes (c_items c)
+  | KTrace => render (enc_trace (c_vals c))
+  | KSearch | KSearchQL => render (enc_search (c_vals c))
   end.
 Fixpoint all_some {A} (l : list (option A)) : option (list A) :=
   match l with
@@ -970,8 +1080,8 @@ Definition spec_doc (c : case) : option json :=
   | KTagValues => Some (doc_tempo_list "tagValues" (c_items c))
   | KLabels => Some (doc_labels (c_items c))
   | KSeries => Some (doc_series (series_want (c_items c) (c_order c) (c_blbls c)))
-  | KTrace => option_map doc_trace_of (all_some (map parse_bytes (c_items c)))
-  | KSearch => option_map doc_search_of (all_some (map parse_bytes (c_items c)))
+  | KTrace => Some (doc_trace_of (map sanitize_doc (c_vals c)))
+  | KSearch | KSearchQL => Some (doc_search_of (map sanitize_doc (c_vals c)))
   | KPromMatrix => Some (doc_prom_matrix (case_series c))
   | KPromVector => Some (doc_prom_vector (case_series c))
   | KPromScalar => Some (doc_prom_scalar (case_scalar c))
@@ -1081,8 +1191,68 @@ Definition dec_kind (s : string) : option enc_kind :=
   else if String.eqb s "promerror" then Some KPromError
   else if String.eqb s "trace" then Some KTrace
   else if String.eqb s "search" then Some KSearch
-  else if String.eqb s "searchql" then Some KSearch
+  else if String.eqb s "searchql" then Some KSearchQL
   else if String.eqb s "numfmt" then Some KNumFmt else None.
+(* tempo kinds: the field values travel as a flat list of items.
+   search: 5 per trace (traceID, rootServiceName, rootTraceName, startTimeUnixNano, durationMs)
+   searchql: 9 per trace (traceID, service, name, start text, float bits of durationMs, spanID, duration text, flags:
+             bit 0 attributes nil, bit 1 spans nil, bit 2 spanSets nil) - the TraceInfo the harness builds from them
+   trace: per span traceID traceId spanID spanId name start end parent service #attrs {key value} #events {time name}
+          hasStatus code message *)
+Fixpoint dec_trace_responses (f : nat) (l : list string) : list trace_response :=
+  match f, l with
+  | S f, a :: b :: c :: d :: e :: r =>
+    {| tr_id := a; tr_svc := b; tr_name := c; tr_start := dec_Z d; tr_dur := dec_Z e |} :: dec_trace_responses f r
+  | _, _ => []
+  end.
+Definition mk_trace_info (tid svc name st : string) (bits : N) (sid du : string) (fl : N) : trace_info :=
+  let attrs := if N.testbit fl 0 then None else Some [{| sa_key := name; sa_val := svc |}] in
+  let si := {| si_id := sid; si_start := st; si_dur := du; si_attrs := attrs |} in
+  let set := {| ss_spans := if N.testbit fl 1 then None else Some [si]; ss_matched := 1 |} in
+  {| ti_id := tid; ti_svc := svc; ti_name := name; ti_start := st; ti_dur := bits; ti_set := set;
+     ti_sets := if N.testbit fl 2 then None else Some [set] |}.
+Fixpoint dec_trace_infos (f : nat) (l : list string) : list trace_info :=
+  match f, l with
+  | S f, a :: b :: c :: d :: e :: g :: h :: i :: r =>
+    mk_trace_info a b c d (dec_N e 0) g h (dec_N i 0) :: dec_trace_infos f r
+  | _, _ => []
+  end.
+Fixpoint take_attrs (n : nat) (l : list string) : list span_attr * list string :=
+  match n, l with
+  | S n, k :: v :: r => let (a, r') := take_attrs n r in ({| sa_key := k; sa_val := v |} :: a, r')
+  | _, _ => ([], l)
+  end.
+Fixpoint take_events (n : nat) (l : list string) : list (Z * string) * list string :=
+  match n, l with
+  | S n, t :: nm :: r => let (a, r') := take_events n r in ((dec_Z t, nm) :: a, r')
+  | _, _ => ([], l)
+  end.
+Fixpoint dec_jspans (f : nat) (l : list string) : list jspan :=
+  match f, l with
+  | S f, a :: b :: c :: d :: nm :: st :: en :: par :: svc :: na :: r =>
+    let (attrs, r1) := take_attrs (dec_nat na) r in
+    match r1 with
+    | ne :: r2 =>
+      let (evs, r3) := take_events (dec_nat ne) r2 in
+      match r3 with
+      | hs :: code :: msg :: r4 =>
+        {| js_traceID := a; js_traceId := b; js_spanID := c; js_spanId := d; js_name := nm; js_start := dec_Z st;
+           js_end := dec_Z en; js_parent := par; js_svc := svc; js_attrs := attrs; js_events := evs;
+           js_status := match dec_nat hs with O => None | _ => Some {| st_msg := msg; st_code := dec_Z code |} end |}
+        :: dec_jspans f r4
+      | _ => []
+      end
+    | [] => []
+    end
+  | _, _ => []
+  end.
+Definition fill_vals (k : enc_kind) (its : list string) : list json :=
+  match k with
+  | KSearch => map trace_response_val (dec_trace_responses (List.length its) its)
+  | KSearchQL => map trace_info_val (dec_trace_infos (List.length its) its)
+  | KTrace => map jspan_val (dec_jspans (List.length its) its)
+  | _ => []
+  end.
 Definition decode_case (x : lbytes) : option case :=
   match split_bar (string_of_list_byte (unLB x)) (fun y => y) with
   | id :: kind :: nls :: r =>
@@ -1095,7 +1265,7 @@ Definition decode_case (x : lbytes) : option case :=
           match take_items (dec_nat no) r3 with
           | Some (ord, [o]) => Some {| c_id := dec_Z id; c_kind := k; c_rows := map fst bs; c_batches := fill_rows k (map fst bs);
                                        c_series := fill_series k (map fst bs) (map snd bs); c_scalar := fill_scalar k (map fst bs);
-                                       c_blbls := map snd bs; c_items := its;
+                                       c_blbls := map snd bs; c_items := its; c_vals := fill_vals k its;
                                        c_order := map (fun x => dec_N x 0) ord; c_out := unesc o |}
           | _ => None
           end
